@@ -196,6 +196,26 @@ def coincidence(rng, st, coin, xopt, g, H, sl, su, delta):
         else:
             sl[i0] = xopt[i0] - comp
         return xopt, g, H, sl, su, delta
+    elif coin == "late_bound_then_arc":
+        # every variable live; i0 carries 75-97% of the gradient and has its bound 0.1 .. 0.95 delta away in its descent direction; H = J'J with one dominant row
+        i0 = int(rng.choice(mov))
+        w = float(rng.uniform(0.75, 0.97))
+        gs = float(np.linalg.norm(g))
+        rest = np.array([j for j in range(n) if j != i0])
+        g[rest] = g[rest] / float(np.linalg.norm(g[rest])) * math.sqrt(1.0 - w * w) * gs
+        g[i0] = math.copysign(w * gs, g[i0])
+        J = rng.normal(size=(n - 1, n))
+        J[1:] *= float(rng.choice([0.05, 0.15, 0.3]))
+        H = J.T @ J
+        H = H * (float(rng.uniform(0.5, 8.0)) * gs / delta / float(np.linalg.norm(H, 2)))
+        for i in range(n):
+            sl[i], su[i] = min(sl[i], xopt[i] - 3.0 * delta), max(su[i], xopt[i] + 3.0 * delta)
+        room = delta * float(rng.uniform(0.1, 0.95))
+        if g[i0] < 0:
+            su[i0] = xopt[i0] + room
+        else:
+            sl[i0] = xopt[i0] - room
+        return xopt, g, H, sl, su, delta
     elif coin == "bound_then_arc":
         # the first steepest-descent step meets the bound of i0 at about a third of the way to the sphere; strongly coupled curvature of the size of
         # |g|/delta (indefinite or rank deficient, so that the remaining variables run on to the sphere)
